@@ -120,7 +120,7 @@ impl_hr_int!(BigInt, "BigInt", false, 3, |b| b, |_| true);
 fn quad_rank<const D: i32>(a: &VV<(BigInt, BigInt)>) -> usize {
     let mul = |x: &(BigInt, BigInt), y: &(BigInt, BigInt)| -> (BigInt, BigInt) {
         let (a, b) = x; let (c, d) = y;
-        if D == -1 { (a * c - b * d, a * d + b * c) } else { (a * c - b * d, a * d + b * c - b * d) }
+        if D == -1 { (a * c - b * d, a * d + b * c) } else { (a * c - b * d, a * d + b * c + b * d) } // repo: ω = (1+√-3)/2, ω² = ω − 1
     };
     let sub = |x: (BigInt, BigInt), y: (BigInt, BigInt)| (x.0 - y.0, x.1 - y.1);
     let zero = |x: &(BigInt, BigInt)| x.0.is_zero() && x.1.is_zero();
@@ -531,7 +531,7 @@ fn rand_dims(r: &mut Rng, maxdim: usize) -> (usize, usize) {
     (d(r).min(maxdim), d(r).min(maxdim))
 }
 
-fn gen_case<R: HR>(s: &mut Sink, r: &mut Rng, all_flags: bool, maxdim: usize)
+fn build_case<R: HR>(r: &mut Rng, maxdim: usize) -> (M<R>, Option<Vec<R>>, String)
 where for<'a> &'a R: EucRingOps<R> {
     let maxdim = maxdim.min(R::MAXDIM);
     let (m, n) = rand_dims(r, maxdim);
@@ -540,25 +540,24 @@ where for<'a> &'a R: EucRingOps<R> {
     match kind {
         0 => { // zero matrix
             let a = M { m, n, a: vec![vec![R::zero(); n]; m] };
-            check_matrix(s, r, &a, Some(&vec![R::zero(); m.min(n)]), all_flags, "zero");
+            (a, Some(vec![R::zero(); m.min(n)]), "zero".into())
         }
         1 | 2 | 3 => { // random (sparse-ish) entries
             let dens = 1 + r.below(4);
             let a = M { m, n, a: (0..m).map(|_| (0..n).map(|_| if r.below(4) < dens { R::gen(r, cls) } else { R::zero() }).collect()).collect() };
-            check_matrix(s, r, &a, None, all_flags, &format!("random.c{}", cls));
+            (a, None, format!("random.c{}", cls))
         }
         4 => { // rank-deficient: rows are combinations of few rows
             let rk = if m.min(n) == 0 { 0 } else { r.below(m.min(n) as u64) as usize };
             let base = M { m: rk, n, a: (0..rk).map(|_| (0..n).map(|_| R::gen(r, cls)).collect()).collect() };
             let coef = M { m, n: rk, a: (0..m).map(|_| (0..rk).map(|_| R::gen(r, 0)).collect()).collect() };
-            let a = mm(&coef, &base);
-            check_matrix(s, r, &a, None, all_flags, &format!("rankdef.c{}", cls));
+            (mm(&coef, &base), None, format!("rankdef.c{}", cls))
         }
         5 => { // diagonal / permuted diagonal input (diag_normalize paths)
             let mut a = M { m, n, a: vec![vec![R::zero(); n]; m] };
             for i in 0..m.min(n) { if r.chance(4, 5) { a.a[i][i] = R::gen(r, cls); } }
             if r.bool() && m > 1 { let i = r.below(m as u64) as usize; let j = r.below(m as u64) as usize; a.a.swap(i, j); }
-            check_matrix(s, r, &a, None, all_flags, &format!("diagonal.c{}", cls));
+            (a, None, format!("diagonal.c{}", cls))
         }
         _ => { // planted invariant factors: U · diag(e_1 | e_2 | …) · V
             let k = m.min(n);
@@ -578,7 +577,20 @@ where for<'a> &'a R: EucRingOps<R> {
             let a = mm(&mm(&u, &dm), &v);
             let mut exp: Vec<R> = e.iter().map(|x| x.normalized()).collect();
             exp.resize(k, R::zero());
-            check_matrix(s, r, &a, Some(&exp), all_flags, &format!("planted.c{}", cls));
+            (a, Some(exp), format!("planted.c{}", cls))
+        }
+    }
+}
+
+fn gen_case<R: HR>(s: &mut Sink, r: &mut Rng, all_flags: bool, maxdim: usize)
+where for<'a> &'a R: EucRingOps<R> {
+    // the generator computes with the ring's own arithmetic: over machine integers it may overflow itself
+    let mut r2 = r.fork();
+    match guard(move || build_case::<R>(&mut r2, maxdim)) {
+        Some((a, exp, kind)) => check_matrix(s, r, &a, exp.as_ref(), all_flags, &kind),
+        None => {
+            assert!(R::MACHINE, "generator panicked over an arbitrary-precision ring");
+            s.count(&format!("generator.overflow.{}", R::TAG));
         }
     }
 }
@@ -622,7 +634,7 @@ fn corpus(s: &mut Sink, r: &mut Rng) {
 
 fn main() {
     let args = Args::parse();
-    quiet_panics();
+    if !args.extra.iter().any(|x| x == "loud") { quiet_panics(); }
     let mut s = Sink::new(&args, "cases: one `snf(&a, flags)` call = one evaluation; matrices 0..8 × 0..8 (thorough: up to 12) over i64, i128, BigInt, \
         Gauss/Eisenstein integers (i64, BigInt), Ratio<i64>, FF<2,3,5>, Poly<x,Ratio<i64>>, Poly<x,FF<3>>; kinds zero / random / rank-deficient / \
         (permuted) diagonal / planted invariant factors U·diag·V; entry classes small, ≈2^53, 20–300 digits; flag subsets: all 16 (or 1111, 0000 + 2 random); \
